@@ -114,7 +114,15 @@ def run(F, cfg, inp):
         z.resize(n_word=n)
         e = bool(z.status['extended_prec'])
         w2 = F.Fxp(None, True, 20, 2).like(x)
-        return dict(ctor=a, after_write=b, after_reset=c, resized_up=d, resized_down=e, like_self=bool(w2.status['extended_prec']), val_dtype=O.snap(x.val).dtype)
+        k1 = F.Fxp(None, like=x)
+        k2 = F.Fxp(inp['c'], like=x, raw=True)
+        arr = F.Fxp([0, 0], s, n, f)
+        el = arr[1]
+        tp = F.Fxp(0, template=x)
+        dc = x.deepcopy()
+        ep = lambda o: bool(o.status['extended_prec'])
+        return dict(ctor=a, after_write=b, after_reset=c, resized_up=d, resized_down=e, like_self=ep(w2), like_kw=ep(k1), like_kw_raw=ep(k2),
+                    element=ep(el), from_template=ep(tp), deepcopy=ep(dc), like_kw_raw_code=O.snap(k2.val), val_dtype=O.snap(x.val).dtype)
     kw = dict(rounding=cfg['rounding'], overflow=cfg['overflow'])
     raw = cfg['mode'] == 'raw'
     k = _k(cfg)
@@ -150,7 +158,8 @@ def post(cfg, inp, ob):
     s, n, f = cfg['signed'], cfg['n_word'], cfg['n_frac']
     if p == 'extprec':
         want = n >= 64
-        return [('extended_prec_iff_n_word_ge_64:' + k_, ob[k_] == want) for k_ in ('ctor', 'after_write', 'after_reset', 'resized_up', 'resized_down', 'like_self')] + \
+        return [('extended_prec_iff_n_word_ge_64:' + k_, ob[k_] == want) for k_ in ('ctor', 'after_write', 'after_reset', 'resized_up', 'resized_down', 'like_self', 'like_kw', 'like_kw_raw', 'element', 'from_template', 'deepcopy')] + \
+               [('like_kw_raw_code', T.icmp(O.cells(ob['like_kw_raw_code'])[0], inp['c'], '=='))] + \
                [('val_dtype', ob['val_dtype'] == ('object' if want else ('int64' if s else 'uint64')))]
     o = cfg['overflow']
     k = _k(cfg)
